@@ -220,7 +220,7 @@ func genC04selfplay(c *Ctx) {
 		if r.Chance(1, 40) {
 			// bufio.Scanner gives up on a line of more than 65535 bytes; readOpenings does not look at Scanner.Err
 			n := []int{65535, 65536, 70000}[r.Intn(3)]
-			data = append(data, []byte(strings.Repeat("1", n-8)+" 1 1\n"+ptn.FormatTPS(tak.New(tak.Config{Size: 3}))+"\n")...)
+			data = append(data, []byte(strings.Repeat(" ", n)+"\n"+ptn.FormatTPS(tak.New(tak.Config{Size: 3}))+"\n")...)
 			c.Count("sp.file.long-line-" + strconv.Itoa(n))
 		}
 		out := c.Emit("sp.open " + hexEnc(data))
